@@ -1,6 +1,6 @@
 #!/bin/bash
 # For every stored seed: apply the patch to a scratch copy of /repo/redun and run the seed's own property check; print exit codes (1 = reported).
-for d in /verif/seeded/*/; do
+for d in /verif/seeded/${1:-}*/; do
   n=$(basename $d); p=${n%%-*}
   T=$(mktemp -d /var/tmp/oc_XXXXXX)
   rsync -a --exclude tests --exclude __pycache__ /repo/redun $T/ && (cd $T && patch -p1 -s < $d/patch.diff) || { echo "$n PATCHFAIL"; rm -rf $T; continue; }
